@@ -1,6 +1,6 @@
 """Property id -> rules, and the texts that go to MANIFEST / evidence."""
 from .rules import (
-    optab, sign, role, memo, state, reord, handles, raw, domain, formats,
+    models, optab, sign, role, memo, state, reord, handles, raw, domain, formats,
     grammar, cyts, misc, hygiene, bounds, dtypes, attribution)
 
 PROPS = dict()
@@ -66,6 +66,7 @@ prop('C01', [
     memo.r_inval,
     state.r_norm,
     optab.r_ite_rewrites,
+    models.r_operations,
 ],
     'every operator alias of dd._abc is interpreted through BDD.apply over '
     'the Boolean domain and compared with its connective (27 aliases, 8 '
@@ -92,6 +93,7 @@ prop('C02', [
     domain.r_rebuild,
     memo.r_inval,
     bounds.r_accept,
+    models.r_operations,
 ],
     'normal form steps of find_or_add on every path (validation, '
     'complement normalisation, elimination, unique-table lookup, insert '
@@ -114,6 +116,7 @@ prop('C03', [
     reord.r_stale_levels,
     role.r_quant_guard,
     misc.r_quant_vars,
+    models.r_operations,
 ],
     'complement push-down in _quantify on every path; LOW/HIGH roles into '
     'find_or_add; ite(p, q, -1) under forall / ite(p, 1, q) otherwise are '
@@ -132,6 +135,7 @@ prop('C04', [
     formats.r_dispatch,
     misc.r_args,
     reord.r_let_decorated,
+    models.r_operations,
 ],
     'sign accounting in _cofactor, _compose, _vector_compose, _copy_bdd '
     '(hit and miss paths); a true value selects the HIGH successor in '
@@ -292,6 +296,7 @@ prop('C13', [
     role.r_quant_guard,
     domain.r_rebuild,
     role.r_spaces,
+    models.r_operations,
 ],
     'references of the two operands of _image (different variable '
     'spaces under vmap) are never compared with each other; '
